@@ -49,6 +49,72 @@ def dec(d):
             {int(k): [bytes(x) for x in v] for k, v in d["status"].items()}, d["late"], d.get("lose", 0), d.get("slow"))
 
 
+def project(trace, spec):
+    """A recorded execution in DirectWriteImpl's vocabulary (None if it is outside the model: loss, slow, stuck, ...)."""
+    stmts, acks, status, late = spec[:4]
+    if (len(spec) > 4 and spec[4]) or (len(spec) > 5 and spec[5]):
+        return None
+    if any(len(v) != 1 for v in status.values()):
+        return None
+    ev, nm110, s_tx = [], 0, 0
+    for e in trace["ev"]:
+        t = bytes(e["text"])
+        if e["k"] == "tx":
+            if t.startswith(b"G4 P0") and s_tx == 0 and nm110 == 0:
+                continue
+            if b"M110" in t:
+                nm110 += 1
+                if nm110 == 2:
+                    ev.append({"k": "tx_hs2", "s": 0, "t": "", "hs": True, "res": ""})
+                continue
+            s_tx += 1
+            ev.append({"k": "tx", "s": s_tx, "t": "", "hs": False, "res": ""})
+        elif e["k"] == "rel":
+            low = t.lower()
+            if e["hs"] and nm110 == 0:
+                continue                      # the answer to the connection probe
+            kind = "ok" if low.startswith(b"ok") else "error" if low.startswith((b"error", b"alarm", b"!!")) else "status"
+            ev.append({"k": "rel", "s": 0, "t": kind, "hs": bool(e["hs"]), "res": ""})
+        elif e["k"] == "call":
+            ev.append({"k": "call", "s": e["s"], "t": "", "hs": False, "res": ""})
+        elif e["k"] == "ret":
+            ev.append({"k": "ret", "s": e["s"], "t": "", "hs": False, "res": e["res"]})
+        elif e["k"] in ("stuck", "lost"):
+            return None
+    err = sorted(i + 1 for i, a in enumerate(acks) if not bytes(a).lower().startswith(b"ok"))
+    return {"n": len(stmts), "err": err, "status": sorted(status), "ev": ev}
+
+
+def impl_conformance(traces, specs):
+    import os
+    from concurrent.futures import ThreadPoolExecutor
+    from .common import workdir, write_json
+    groups = {}
+    for i, (t, sp) in enumerate(zip(traces, specs)):
+        p = project(t, sp)
+        if p is not None:
+            groups.setdefault((p["n"], tuple(p["err"]), tuple(p["status"])), []).append((i, p))
+
+    def one(item):
+        (n, err, st), items = item
+        path = os.path.join(workdir(), "dwconf_%d_%s_%s.json" % (n, "".join(map(str, err)), "".join(map(str, st))))
+        write_json(path, [p for _, p in items])
+        c = "SPECIFICATION TSpec\nCONSTANTS\n NStmt = %d\n ErrAt = {%s}\n StatusAt = {%s}\n" % (n, ",".join(map(str, err)), ",".join(map(str, st)))
+        r = tlc.validate("DirectWriteImplTrace", c, path, heap="1g", tag="dwconf")
+        if r.errors:
+            raise flow.MachineryError("DirectWriteImplTrace failed: %s\n%s" % (r.errors[:2], r.stdout[-1500:]))
+        ok = {t[1] for t in r.tuples if t and t[0] == "A"}
+        return len(items), len(ok), [items[j - 1][0] for j in range(1, len(items) + 1) if j not in ok]
+    tot = acc = 0
+    rej = []
+    with ThreadPoolExecutor(max_workers=10) as ex:
+        for a, b, c in ex.map(one, groups.items()):
+            tot += a
+            acc += b
+            rej += c
+    return acc, tot, rej
+
+
 class P(flow.Plan):
     pid = "C16"
     clauses = ["C16_Order", "C16_Sync", "C16_Error", "C16_Returns", "C16_Disconnect", "C16_Loss", "H_Device"]
@@ -84,7 +150,19 @@ class P(flow.Plan):
         traces = run_all(specs)
         for t in traces:
             t["meta"]["driver"] = "model-schedules"
-        return traces, [enc(s) for s in specs], {}
+        acc, tot, rej = impl_conformance(traces, specs)
+        # the binding is live: a trace in which write(2) returns before write(1) must be rejected
+        bad = copy.deepcopy(traces[0])
+        for e in bad["ev"]:
+            if e["k"] == "ret":
+                e["s"] = 3 - e["s"] if e["s"] in (1, 2) else e["s"]
+        a2, t2, _ = impl_conformance([bad], [specs[0]])
+        if t2 == 1 and a2 == 1:
+            raise flow.MachineryError("DirectWriteImplTrace accepted a trace with swapped returns")
+        extra = {"impl_level_traces_accepted_by_DirectWriteImpl": acc, "impl_level_traces_checked": tot,
+                 "impl_level_corrupted_trace_rejected": t2 == 1 and a2 == 0,
+                 "drift_count": tot - acc, "drift_notes": [enc(specs[i]) for i in rej[:3]]}
+        return traces, [enc(s) for s in specs], extra
 
     def executions(self, tier, sd):
         n = 200 if tier == "thorough" else 40
